@@ -997,6 +997,25 @@ func (vc *VC) assignPats(env *Env, cs []*Clause) []modPat {
 				continue
 			}
 		}
+		if call, isCall := c.Expr.(*SCall); isCall && call.Fun == "heap" && len(call.Args) == 1 {
+			// heap("Slice"): any cell of that scalar kind (slice headers, ints, ...)
+			// - the coarsest frame short of everything: cells of the other kinds
+			// (and ghost cells) are untouched
+			if a, ok := call.Args[0].(*SStr); ok {
+				found := false
+				for _, hs := range HeapSorts {
+					if hs == a.V {
+						found = true
+					}
+				}
+				if found {
+					pats = append(pats, modPat{sort: a.V, all: true})
+					continue
+				}
+			}
+			vc.unsupported("assigns: heap(\"K\") needs one of %v", HeapSorts)
+			continue
+		}
 		if call, isCall := c.Expr.(*SCall); isCall && call.Fun == "allfields" && len(call.Args) == 1 {
 			// allfields(T): every field of every T in memory (type-level frame)
 			var tn string
